@@ -396,7 +396,7 @@ fn viol(r: &mut Report, sig: &str, what: String, s: &Script, cfg: &PlayCfg, mode
 }
 
 /// Consume the (known, pinned) CRLF that follows a non-empty body. Returns true if it was there.
-fn eat_body_crlf(c: &mut Conn) -> bool {
+pub fn eat_body_crlf(c: &mut Conn) -> bool {
     if c.buf.len() < 2 && !c.eof {
         c.fill(Duration::from_millis(30));
     }
@@ -804,6 +804,69 @@ pub fn play_slow_request(r: &mut Report, lab: &dyn Lab, rng: &mut Rng, id: &str,
     let _ = lab.take_log(&format!("{}.", id));
 }
 
+/// A multi-megabyte echo to a client that does not read for a while (longer than the connection timeout on the
+/// timeout app): once the client reads, the response must be there in full - status, Content-Length and every byte.
+pub fn play_big_response(r: &mut Report, lab: &dyn Lab, rng: &mut Rng, id: &str, on_timeout_app: bool, replay: &[String]) {
+    let addr = if on_timeout_app {
+        match lab.timeout_addr() {
+            Some(a) => a,
+            None => return,
+        }
+    } else {
+        lab.addr()
+    };
+    r.eval();
+    let n = *rng.pick(&[2usize << 20, 5 << 20, 8 << 20]) + rng.urange(0, 4096);
+    // (a blocked write makes partial progress on its first attempts: an armed write timeout needs several periods)
+    let stall_ms = if on_timeout_app { TIMEOUT_MS * 6 } else { *rng.pick(&[150u64, 400]) };
+    let mut body = format!("<{}.0>", id).into_bytes();
+    let mut x = fnv(id.as_bytes()) | 1;
+    while body.len() < n {
+        x ^= x << 13;
+        x ^= x >> 7;
+        x ^= x << 17;
+        body.extend_from_slice(&x.to_le_bytes());
+    }
+    body.truncate(n);
+    let q = ReqSpec { xid: format!("{}.0", id), method: "POST", target: Target::Echo, conn: Some("close".into()), version: "HTTP/1.1", body: Some(body.clone()) };
+    let mut c = match Conn::open(addr) {
+        Ok(c) => c,
+        Err(e) => {
+            r.inconclusive(format!("cannot connect to the lab app: {}", e));
+            return;
+        }
+    };
+    let ex = J::obj(vec![("body_bytes", J::u(n as u64)), ("client_stalls_ms_before_reading", J::u(stall_ms)), ("app_connection_timeout_ms", if on_timeout_app { J::u(TIMEOUT_MS) } else { J::Null }), ("runtime", J::s(lab.runtime()))]);
+    if c.s.write_all(&q.render()).is_err() {
+        r.inconclusive("could not send a large request");
+        return;
+    }
+    std::thread::sleep(Duration::from_millis(stall_ms));
+    let what = format!("[{}] echo of {} bytes to a client that starts reading {} ms after sending{}", lab.runtime(), n, stall_ms, if on_timeout_app { format!(" (connection timeout {} ms)", TIMEOUT_MS) } else { String::new() });
+    match c.read_response(Duration::from_secs(30)) {
+        Ok(Some(m)) => {
+            if m.status() != 200 || !matches!(m.framing, Framing::ContentLength(l) if l == n) {
+                r.violation("C01/big-response:head", format!("{}: status {} framing {:?}", what, m.status(), m.framing), ex, replay.to_vec());
+            } else if m.body != body {
+                let first = m.body.iter().zip(body.iter()).position(|(a, b)| a != b).unwrap_or(m.body.len().min(body.len()));
+                r.violation("C01/big-response:body", format!("{}: body differs from what the handler returned (first difference at byte {}, {} bytes received)", what, first, m.body.len()), ex, replay.to_vec());
+            } else {
+                r.count("big_responses_intact", 1);
+                r.count("big_response_bytes", n as u64);
+            }
+        }
+        Ok(None) => {
+            if c.eof {
+                r.violation("C01/response-missing", format!("{}: connection closed without a response", what), ex, replay.to_vec());
+            } else {
+                r.inconclusive("no response to a large request within 30 s");
+            }
+        }
+        Err(e) => r.violation("C01/big-response:truncated", format!("{}: the response is not complete: {}", what, e.chars().take(160).collect::<String>()), ex, replay.to_vec()),
+    }
+    let _ = lab.take_log(&format!("{}.", id));
+}
+
 pub fn fingerprint(s: &Script) -> u64 {
     let mut v = Vec::new();
     for q in &s.reqs {
@@ -870,6 +933,12 @@ pub fn run_all(r: &mut Report, lab: &dyn Lab, seed: u64, shard: usize, nshards: 
         }
         if k % 16 == 5 {
             play_slow_request(r, lab, &mut rng, &format!("{}y", id), &replay);
+        }
+        if k % 50 == 11 {
+            play_big_response(r, lab, &mut rng, &format!("{}b", id), false, &replay);
+        }
+        if k % 50 == 27 {
+            play_big_response(r, lab, &mut rng, &format!("{}c", id), true, &replay);
         }
         k += nshards as u64;
     }
